@@ -180,6 +180,12 @@ def frame_steps(name, fns, recv='self', depth=0, stop=None):
         ae = match_brace(body, m.end() - 1, '(', ')')
         arg = body[m.end():ae - 1]
         hdr = loop_header(body, m.start()) if mark == '*' else ''
+        if hdr:
+            # a loop over a local (`let rrs = dns.answers.iter().chain(…); for rr in rrs`) runs over what the local was built from
+            for lv in set(re.findall(r'[A-Za-z_]\w*', hdr)):
+                im = None
+                for im in re.finditer(r'\blet\s+(?:mut\s+)?%s\s*(?::[^=;]+)?=\s*([^;]+);' % re.escape(lv), body[:m.start()]): pass
+                if im and 'self.' not in im.group(1): hdr += ' ' + im.group(1)
         if not mark and re.search(r'\|[^|]*\|', stmt) and re.search(r'\b(for_each|try_for_each|map|try_fold|fold)\b', stmt):
             mark = '*'; hdr = stmt
         ctx = arg + ' ' + hdr
@@ -211,6 +217,10 @@ def _frame_resolve(name, fns, raw):
     for i, (bind, meth, mark, ctx) in enumerate(raw):
         what = '_'
         fm = re.findall(r'\b%s\s*\.\s*(\w+)\b(?!\s*\()' % x, ctx) if x else []
+        if mark == '*' and len(dict.fromkeys(fm)) > 1:
+            # one loop over a chain of several fields = one loop per field, in chain order
+            for fld in dict.fromkeys(fm): steps.append(('.' + fld, meth + mark))
+            continue
         if fm: what = '.' + fm[0]
         else:
             for j in range(i):
